@@ -2,8 +2,13 @@
 EXTENDS WriteLog
 WK == {<<>>, <<97>>, <<97, 98>>, <<128>>}
 WK3 == {<<>>, <<97>>, <<97, 98>>}
+WK2 == {<<>>, <<97>>}
 WV == {<<>>, <<1>>}
 Fn(K) == UNION {[S -> WV] : S \in SUBSET K}
 M1All == Fn(WK)
 M1Small == Fn(WK3)
+M1Two == Fn(WK2)
+NoPrefix == <<>>
+(* the batch also writes another key, so that its log is never empty *)
+TouchOther == <<[a |-> "ins", k |-> <<128>>, v |-> <<1>>]>>
 =============================================================================
